@@ -335,6 +335,16 @@ void BppODiscreteDistributionFormat::writeDiscreteDistribution(
     // The bounds of a uniform distribution are not parameters: the reader asks for them.
     if (dynamic_cast<const UniformDiscreteDistribution*>(&dist))
       out << ",begin=" << dist.getLowerBound() << ",end=" << dist.getUpperBound();
+    // A fixed offset of a gamma distribution is not a parameter either (the reader takes 'offset'
+    // as a fixed offset unless 'ParamOffset' is given).
+    auto* gamma = dynamic_cast<const GammaDiscreteDistribution*>(&dist);
+    if (gamma && !gamma->hasOffsetParameter() && gamma->getOffset() != 0)
+    {
+      int p = out.getPrecision();
+      out.setPrecision(12);
+      out << ",offset=" << gamma->getOffset();
+      out.setPrecision(p);
+    }
   }
 
   try
